@@ -898,3 +898,44 @@ func iterationPasses(fn *ssa.Function, h *ssa.BasicBlock, pred func(ssa.Instruct
 	}
 	return true, fmt.Sprintf("%d back edge(s)", n)
 }
+
+// divvyShareForm: the credit of the origins loop of DivvyingTips has the normal form
+// (reward - commission) * (this origin's amount) / (snapshot total). With SNAPSHOT-SUM (total = sum of the amounts) the
+// credits of one payout add up to at most the reward.
+func divvyShareForm(P *Prog) (bool, string, token.Pos) {
+	dv := P.Func("(x/reporter/keeper.Keeper).DivvyingTips")
+	if dv == nil {
+		return false, "anchor DivvyingTips does not resolve", token.NoPos
+	}
+	tm := NewTermer()
+	le := &linEval{Atomise: func(t *Term) string {
+		switch {
+		case strings.HasPrefix(t.Op, "param:3:"):
+			return "R"
+		case strings.HasSuffix(t.Op, "OracleReporter.CommissionRate"):
+			return "rate"
+		case strings.HasSuffix(t.Op, "TokenOriginInfo.Amount"):
+			return "amount"
+		case strings.HasSuffix(t.Op, "DelegationsAmounts.Total"):
+			return "total"
+		}
+		return ""
+	}}
+	n, ok, det := 0, true, ""
+	pos := dv.Pos()
+	for _, cs := range P.CallSitesIn(dv) {
+		if cs.Callee != "(x/reporter/keeper.Keeper).addSelectorTips" || !inLoop(dv, cs.Instr.Block()) {
+			continue
+		}
+		n++
+		pos = cs.Pos()
+		p := le.Eval(tm.Of(Arg(cs.Instr, 2))).String()
+		if p != "-1 * R^1 * amount^1 * rate^1 * total^-1 + R^1 * amount^1 * total^-1" && p != "-1/100 * R^1 * amount^1 * rate^1 * total^-1 + R^1 * amount^1 * total^-1" {
+			ok, det = false, clip(p, 200)
+		}
+	}
+	if n != 1 {
+		return false, fmt.Sprintf("%d credit sites in the origins loop", n), pos
+	}
+	return ok, det, pos
+}
